@@ -1,5 +1,5 @@
 (* C14 — a failing job never stops independent jobs (asynchronous loop). *)
-From Pydra Require Import Base.Prelude Base.SchedBase Model.Sched Spec.Sched Proofs.SchedG Proofs.SchedH.
+From Pydra Require Import Base.Prelude Base.SchedBase Model.Sched Spec.Sched Proofs.SchedG Proofs.SchedH Proofs.SchedM Proofs.SchedTermA.
 
 (* The property for the model of a given code variant: whatever the oracle (completion order,
    jobs seen running), no exception escapes the scheduling loop, and a run that ends by itself has
@@ -56,3 +56,45 @@ Example C14_repaired_same_oracle :
   let o := run_async unit (fun _ _ _ => tt) f14_fails repaired f14_graph None f14_oracle 20 in
   o_status o = Finished /\ launches o = [(0, 0); (1, 0); (2, 0); (3, 0)] /\ error_names o = [(0, 0)].
 Proof. vm_compute. repeat split. Qed.
+
+(* ------------------------------------------------------------------------------------------------
+   Total version (termination with failing jobs: Proofs/SchedTermA.v, builder D1, on this model).
+   For every oracle, every failing set, max_concurrent >= 1 or none, fuel >= |jobs| + 2, the run ENDS:
+   - Finished: exactly the jobs not downstream of a failure were launched, the error names exactly the
+     failed jobs (c14_outcome);
+   - Stalled (the ten-poll stall detector fired: only possible while more than ten nodes still have to
+     be marked unrunnable / have zero jobs, one per poll): every launched job was allowed to run
+     (none is downstream of a failure), every job named in the error is a failed job that was launched;
+     NOT claimed in this case: that every job not downstream of a failure has been launched.
+   It never ends by an exception out of a poll and never runs out of fuel. *)
+Definition C14_total_statement (vr : variant) : Prop :=
+  forall (V : Type) (body : nat -> nat -> list (list (option V)) -> V) (fails : job -> bool)
+         (g : graph) (kmax : option nat) (orc : list oracle_step) (fuel : nat),
+    wf_graph g -> (forall k, kmax = Some k -> 1 <= k) -> List.length (all_jobs g) + 2 <= fuel ->
+    let o := run_async V body fails vr g kmax orc fuel in
+    (o_status o = Finished /\ c14_outcome g fails (launches o) (error_names o))
+    \/ (o_status o = Stalled
+        /\ (forall j, In j (launches o) -> should_run g fails j)
+        /\ (forall j, In j (error_names o) -> should_fail g fails j /\ In j (launches o))).
+
+Theorem C14_full_total : C14_total_statement repaired.
+Proof.
+  intros V body fails g kmax orc fuel WF KP B o.
+  destruct (async_terminates_full V body fails repaired eq_refl g WF kmax KP orc fuel B) as [S|S].
+  - left. split; [exact S|]. apply async_c14; auto.
+  - right. split; [exact S|split].
+    + intros j Hj. apply (async_launched_should_run V body fails repaired eq_refl g WF kmax orc fuel j Hj).
+    + intros j Hj. apply (async_errors_should_fail V body fails repaired eq_refl g WF kmax orc fuel j Hj).
+Qed.
+Print Assumptions C14_full_total.
+
+(* both disjuncts occur: the F14 graph ends Finished; a failing source followed by a chain of twelve nodes
+   trips the stall detector (the source ran and is the one error; nothing downstream was launched) *)
+Definition stall_chain : graph := mkNode 0 [] 1 :: map (fun i => mkNode (S i) [i] 1) (seq 0 12).
+Example C14_total_nonvacuous :
+  (wf_graph f14_graph /\ List.length (all_jobs f14_graph) + 2 <= 20
+   /\ o_status (run_async unit (fun _ _ _ => tt) f14_fails repaired f14_graph None f14_oracle 20) = Finished)
+  /\ (wf_graph stall_chain /\ List.length (all_jobs stall_chain) + 2 <= 15
+      /\ let o := run_async unit (fun _ _ _ => tt) f14_fails repaired stall_chain None [] 15 in
+         o_status o = Stalled /\ launches o = [(0, 0)] /\ error_names o = [(0, 0)]).
+Proof. vm_compute. repeat split; repeat constructor. Qed.
